@@ -17,8 +17,8 @@ from ref import secp, sighash, taproot, sign as rsign, tx as rtx, verify
 from checks.lockstep import parse_events
 
 PROP = 'C03'
-TYPES = ['p2pk', 'multisig', 'p2pkh', 'p2sh-multisig', 'p2sh-hashlock', 'p2wpkh', 'p2wsh', 'p2sh-p2wpkh', 'p2sh-p2wsh', 'p2tr-key', 'p2tr-script', 'p2wsh-timelock', 'p2sh-timelock', 'p2wsh-hashlock']
-SEGWIT = {'p2wpkh', 'p2wsh', 'p2sh-p2wpkh', 'p2sh-p2wsh', 'p2tr-key', 'p2tr-script', 'p2wsh-timelock', 'p2wsh-hashlock'}
+TYPES = ['p2pk', 'multisig', 'p2pkh', 'p2sh-multisig', 'p2sh-hashlock', 'p2wpkh', 'p2wsh', 'p2sh-p2wpkh', 'p2sh-p2wsh', 'p2tr-key', 'p2tr-script', 'p2wsh-timelock', 'p2sh-timelock', 'p2wsh-hashlock', 'witness-program']
+SEGWIT = {'witness-program', 'p2wpkh', 'p2wsh', 'p2sh-p2wpkh', 'p2sh-p2wsh', 'p2tr-key', 'p2tr-script', 'p2wsh-timelock', 'p2wsh-hashlock'}
 SATS = {
     'p2pk': ['valid', 'wrong-key', 'altered-output', 'altered-sequence', 'altered-locktime', 'non-push-scriptsig', 'leftover-stack', 'unexpected-witness', 'split-conditional', 'altstack-carry', 'wrong-amount',
              'opcount-201-in-each-script', 'opcount-202-in-scriptpubkey', 'opcount-202-in-scriptsig', 'other-input-has-witness'],
@@ -38,6 +38,8 @@ SATS = {
                        'cltv-ok', 'cltv-too-early', 'cltv-equal', 'cltv-type-mismatch', 'cltv-final-sequence', 'cltv-time-ok'],
     'p2sh-timelock': ['csv-ok', 'csv-too-early', 'csv-highbits-too-early', 'csv-version1', 'cltv-ok', 'cltv-too-early', 'cltv-final-sequence', 'cltv-type-mismatch'],
     # witness items are bytes, whatever they look like as text; a witness script is run as it is, whatever it looks like
+    # witness programs other than v0/20, v0/32 and native v1/32: future versions succeed unless discouraged, v0 of another length fails
+    'witness-program': ['v2-32-bytes', 'v16-2-bytes', 'v1-33-bytes', 'v1-2-bytes', 'v0-25-bytes', 'v0-2-bytes', 'p2sh-wrapped-v1-32-bytes', 'p2sh-wrapped-v5-20-bytes', 'v2-40-bytes'],
     'p2wsh-hashlock': ['valid', 'wrong-preimage', 'digits-only-preimage', 'two-digit-items', 'p2sh-shaped-witness-script', 'p2sh-shaped-witness-script-inner-fails', 'opcode-name-preimage', 'leftover-stack'],
 }
 FLAGMODS = {
@@ -55,6 +57,7 @@ FLAGMODS = {
     'p2wsh-timelock': ['CHECKSEQUENCEVERIFY', 'CHECKLOCKTIMEVERIFY', 'WITNESS'],
     'p2sh-timelock': ['CHECKSEQUENCEVERIFY', 'CHECKLOCKTIMEVERIFY', 'P2SH'],
     'p2wsh-hashlock': ['WITNESS', 'P2SH', 'CLEANSTACK', 'MINIMALIF'],
+    'witness-program': ['DISCOURAGE_UPGRADABLE_WITNESS_PROGRAM', 'DISCOURAGE_UPGRADABLE_WITNESS_PROGRAM', 'DISCOURAGE_UPGRADABLE_WITNESS_PROGRAM', 'WITNESS', 'TAPROOT'],
 }
 
 
@@ -113,6 +116,15 @@ def build(rng, otype, sat):
         wscript = rng.choice([rsign.spk_p2pk(pub), rsign.multisig_script(2, pubs3)])
         redeem = rsign.spk_p2wsh(wscript)
         spk = rsign.spk_p2sh(redeem)
+    elif otype == 'witness-program':
+        ver = int(sat.split('-v')[1].split('-')[0]) if sat.startswith('p2sh') else int(sat.split('-')[0][1:])
+        plen = int(sat.split('-')[-2])
+        wprog = bytes([OP_0 if ver == 0 else OP_1 + ver - 1]) + push_only(rsign.rnd_bytes(rng, plen))
+        if sat.startswith('p2sh'):
+            redeem = wprog
+            spk = rsign.spk_p2sh(redeem)
+        else:
+            spk = wprog
     elif otype == 'p2wsh-hashlock':
         if sat in ('digits-only-preimage', 'two-digit-items'):
             pre = digits_only_bytes(rng)
@@ -306,6 +318,10 @@ def build(rng, otype, sat):
             ssig = push_only(r2)
     elif otype == 'p2wsh-timelock':
         wit = [wsig(wscript), wscript]
+    elif otype == 'witness-program':
+        wit = rng.choice([[b'\x01'], [b''], [b'\x01', b'\x51'], [rsign.rnd_bytes(rng, 64)]])
+        if sat.startswith('p2sh'):
+            ssig = push_only(redeem)
     elif otype == 'p2wsh-hashlock':
         if sat == 'two-digit-items':
             wit = [pre2, pre, wscript]
